@@ -1202,7 +1202,10 @@ def int_from_bytes_model(ip, args, kw):
     s = ip.seq_view(b) if isinstance(b, (Loc, SV)) else lift(b)
     n = simp(z3.Length(s.e))
     if not z3.is_int_value(n):
-        raise Unsupported("int.from_bytes of a string of symbolic length")
+        uv = ip.st.unique_value(n) if not ip.st.merge else None
+        if uv is None:
+            raise Unsupported("int.from_bytes of a string of symbolic length")
+        n = z3.IntVal(uv)
     return bytes_int(ip, s, n.as_long(), '<' if order == 'little' else '>') if n.as_long() > 0 else 0
 
 
